@@ -1,6 +1,8 @@
 import Az65.Drv.Expr
 import Az65.Drv.CR
 import Az65.Drv.Intern
+import Az65.Drv.Lex
+import Az65.Drv.Asm
 /-
 `azmodel`: line-protocol driver.  Reads `id \t mode \t args…` lines on stdin, prints
 `id \t <model/spec columns>` per line.  Imports only Model/Spec/Drv files (no Mathlib), so it
@@ -13,6 +15,8 @@ def dispatch (mode : String) (args : List String) : String :=
   | "expr" => runExpr args
   | "cr" => runCR args
   | "intern" => runIntern args
+  | "lex" => runLex args
+  | "asm" => runAsm args
   | _ => "BADMODE"
 
 partial def loop (h : IO.FS.Stream) (out : IO.FS.Stream) : IO Unit := do
